@@ -82,16 +82,16 @@ CHECKS = {
     ),
     "C11": dict(
         category="other",
-        technique="Kani loop-free harnesses on the extracted submission-state functions against a two-cell file-system stand-in with failing writes and atomic rename",
+        technique="Kani loop-free harnesses on the extracted submission-state functions against a two-cell file-system stand-in with failing writes and atomic rename, and on the extracted write::try_submit / try_confirm_submission_from_failed_attempt / try_confirm_submission_from_last_session against a logged Celestia client with arbitrary RPC outcomes",
         text="State::write never writes the state file in place (temp then rename) and is all-or-nothing; State::read accepts a Prepared record only if its height is beyond the last confirmed one; construct_and_write makes the prepared record durable before returning and carries last_submission unchanged; "
-             "into_started advances last_submission exactly to the in-flight height, revert keeps it; restart resumes from the confirmed height. The ordering in relayer/write (prepared before broadcast, started only after confirmation) is not under contract.",
-        note="level other: invariant kernel under a stated crash model (POSIX rename atomic, no torn temp read-back). Trusted: Kani/CBMC, serde_json round-trip, the file-system stand-in. Not covered: write/mod.rs try_submit and startup confirm/revert, the no-gap induction.",
+             "into_started advances last_submission exactly to the in-flight height, revert keeps it; restart resumes from the confirmed height. write::try_submit: the Prepared record naming this transaction and height is durable before the broadcast, Started is recorded only after an accepted broadcast or a positive confirmation, a timed-out broadcast leaves the state Prepared and the next attempt confirms first and does not resend a confirmed transaction; at start-up a Prepared record is confirmed (=> started at the in-flight height) or reverted, never both.",
+        note="level other: invariant kernel under a stated crash model (POSIX rename atomic, no torn temp read-back). Trusted: Kani/CBMC, serde_json round-trip, the file-system stand-in. Not covered: the tokio select loop of BlobSubmitter::run and tryhard retry plumbing, the no-gap induction over restarts (argued in DESIGN §6).",
     ),
     "C12": dict(
         category="other",
-        technique="Kani loop-free harnesses on the extracted NextSubmission::try_add and TakeSubmission::poll with stand-ins for the input/payload conversion",
-        text="try_add commits a candidate only if its compressed payload is within MAX_PAYLOAD_SIZE_BYTES, appends the block exactly once after the earlier ones with the payload built from that very input, and on refusal leaves the batch untouched and hands the block back; take() moves input and payload out together and leaves nothing behind.",
-        note="level other. Trusted: Kani/CBMC; Input::extend_from_sequencer_block / try_into_payload (filter, protobuf, brotli, Blob::new) are stand-ins. Not covered: metadata-vs-filter behaviour, pending_block handling, encode/decode agreement with conductor.",
+        technique="Kani loop-free harnesses on the extracted NextSubmission::try_add, TakeSubmission::poll and BlobSubmitter::add_sequencer_block_to_next_submission/has_capacity with stand-ins for the input/payload conversion",
+        text="try_add commits a candidate only if its compressed payload is within MAX_PAYLOAD_SIZE_BYTES, appends the block exactly once after the earlier ones with the payload built from that very input, and on refusal leaves the batch untouched and hands the block back; take() moves input and payload out together and leaves nothing behind; a block that does not fit is kept in the pending slot (exactly one of batch / pending) and the channel is not read while it is pending.",
+        note="level other. Trusted: Kani/CBMC; Input::extend_from_sequencer_block / try_into_payload (filter, protobuf, brotli, Blob::new) are stand-ins. Not covered: metadata-vs-filter behaviour, the select loop re-adding the pending block, encode/decode agreement with conductor.",
     ),
     "C13": dict(
         category="other",
